@@ -17,6 +17,14 @@ CHECKS = {
    technique="explicit-state exploration of the real engine over all salience assignments and all rule orders per cycle, lockstep conflict-set oracle",
    text="Every rule set of 2 and 3 rules over 5 rule kinds x every salience assignment from a boundary set (incl. int32 limits, omitted, hex/octal/negative spellings), every initial world, every rule order at every cycle: at most one firing per cycle, of a candidate with maximal model salience; the model's post-state equals the real facts before the next cycle begins.",
    note="Model salience comes from the generator, not from the engine's parse. Bounds: k<=3 (k=4 in thorough), MaxCycle 6/8."),
+ "C06": dict(level="model_checking", design="§5 C06",
+   technique="explicit-state exploration of the real engine over rule sets x MaxCycle x listener counts x rule orders, engine-model trace validation",
+   text="Rule sets {never, fires n times, loops, Complete at firing n, action error at firing n, retract chain, failing condition} x MaxCycle 0..5/8 x 1..4 listeners (+ listener-free differential) x every rule order per cycle: the engine model followed along the trace decides per cycle whether the run must continue, fire, return nil, the limit error (exactly when one more firing would be needed) or an action error; per-listener protocol automaton; termination horizon counted in callbacks.",
+   note="Candidate flags that disagree with the reference evaluator are C01/C02's and counted as foreign. MaxCycle bounded by 8."),
+ "C10": dict(level="model_checking", design="§5 C10",
+   technique="explicit-state exploration of the real engine over all Retract/Complete action-list placements and rule orders, lockstep retract-set/complete-flag model",
+   text="Every rule set of 2 and 3 rules whose action lists place assignment / Retract(self|other|second other|unknown) / Complete() at every position (length <=2, thorough <=3), equal and dominant saliences, every rule order at every cycle: a retracted rule is never evaluated or fired again in the run, all other rules are evaluated every cycle with their fresh status, unknown names change nothing, remaining actions after Retract/Complete run, no cycle follows Complete, Execute returns nil.",
+   note="Bounds: k<=3, action lists <=3, MaxCycle 8."),
 }
 
 def entry(pid, c):
